@@ -69,16 +69,31 @@ def rejection_scenarios(ctx, rule):
   done = set()
   for fname, cls, in_loop, attrs, cases, what in REJECTIONS:
     fi = ctx.func(SL + ':' + fname)
-    fn = fi.node
+    # the function and the module-level helpers it calls (validation moved into a helper is still the same validation): a raise in
+    # a helper is reached under the helper's own tests (parameters replaced by the arguments) and the tests around the call
+    from sa import pathval
+    found = []
+
+    def collect(f_, prefix, env, depth):
+      for r in ast.walk(f_.node):
+        if isinstance(r, ast.Raise) and r.exc is not None:
+          c = (dotted(r.exc.func) if isinstance(r.exc, ast.Call) else dotted(r.exc)) or ''
+          if c.split('.')[-1] == cls:
+            own_c = [(pathval.subst(U.expand_locals(f_.node, t, at=r), env), p) for t, p in U.enclosing_tests(f_.node, r)]
+            found.append((f_, r, prefix + own_c))
+      if depth < 2:
+        for c_ in ast.walk(f_.node):
+          if isinstance(c_, ast.Call) and isinstance(c_.func, ast.Name) and c_.func.id in fi.module.functions and not c_.keywords:
+            g_ = fi.module.functions[c_.func.id]
+            ps = [a_.arg for a_ in g_.node.args.args]
+            if len(ps) != len(c_.args) or g_ is f_:
+              continue
+            env2 = dict((p_, pathval.subst(U.expand_locals(f_.node, a_, at=c_), env)) for p_, a_ in zip(ps, c_.args))
+            at_call = [(pathval.subst(U.expand_locals(f_.node, t, at=c_), env), p) for t, p in U.enclosing_tests(f_.node, c_)]
+            collect(g_, prefix + at_call, env2, depth + 1)
+    collect(fi, [], {}, 0)
     sites = []
-    for r in ast.walk(fn):
-      if not (isinstance(r, ast.Raise) and r.exc is not None):
-        continue
-      c = (dotted(r.exc.func) if isinstance(r.exc, ast.Call) else dotted(r.exc)) or ''
-      if c.split('.')[-1] != cls:
-        continue
-      # the tests that enclose the raise (its own guard); earlier rejections only decide which error comes first
-      conds = [(U.expand_locals(fn, t, at=r), p) for t, p in U.enclosing_tests(fn, r)]
+    for owner, r, conds in found:
       read = set(x.attr for t, _p in conds for x in ast.walk(t) if isinstance(x, ast.Attribute))
       if not set(attrs) <= read:
         continue
@@ -91,13 +106,13 @@ def rejection_scenarios(ctx, rule):
             bases.setdefault(x.attr, set()).add(norm_text(x.value))
       if any(len(b) > 1 for b in bases.values()):
         continue
-      sites.append((r, conds))
+      sites.append((owner, r, conds))
     cons = '%s: %s' % (cls, what)
     if not sites:
       why = 'cannot classify: no raise of %s in %s whose conditions read %s' % (cls, fname, ', '.join(attrs))
-      ctx.ob(rule, fi, fn, False, why, construct=cons, unknown=why)
+      ctx.ob(rule, fi, fi.node, False, why, construct=cons, unknown=why)
       continue
-    for r, conds in sites:
+    for owner, r, conds in sites:
       rel = [(t, p) for t, p in conds if any(isinstance(x, ast.Attribute) and x.attr in attrs for x in ast.walk(t))]
       for vals, want in cases:
         pairs = []
@@ -109,9 +124,9 @@ def rejection_scenarios(ctx, rule):
         sc = ', '.join('%s = %s' % kv for kv in sorted(vals.items()))
         if got is None:
           why = 'cannot classify: the conditions of %s cannot be evaluated for %s' % (norm_text(r)[:50], sc)
-          ctx.ob(rule, fi, r, False, why, construct=cons + ' [%s]' % sc, unknown=why)
+          ctx.ob(rule, owner, r, False, why, construct=cons + ' [%s]' % sc, unknown=why)
         else:
-          ctx.ob(rule, fi, r, got == want, 'for %s the rejection is %s' % (sc, 'reached' if got else 'not reached') if got == want else
+          ctx.ob(rule, owner, r, got == want, 'for %s the rejection is %s' % (sc, 'reached' if got else 'not reached') if got == want else
                  'for %s the %s is %s, but %s: its guard is %s' % (sc, cls, 'raised' if got else 'not raised', what,
                                                                    ' and '.join(('' if p else 'not ') + '(' + norm_text(t) + ')' for t, p in rel)),
                  construct=cons + ' [%s]' % sc, definite=True)
@@ -126,7 +141,9 @@ def first_element_only(ctx, rule):
   for x in ast.walk(fi.node):
     if isinstance(x, ast.Subscript) and not isinstance(x.slice, ast.Slice) and U.const_value(x.slice) is not None:
       base = U.expand_locals(fi.node, x.value, at=x)
-      if any(isinstance(y, ast.Attribute) and y.attr in ('time_signatures', 'tempos') for y in ast.walk(base)):
+      while isinstance(base, ast.Call) and dotted(base.func) in ('sorted', 'list', 'tuple') and base.args:
+        base = base.args[0]       # the field itself, possibly time-sorted / copied - not a tuple built from its elements
+      if isinstance(base, ast.Attribute) and base.attr in ('time_signatures', 'tempos'):
         n += 1
         k = U.const_value(x.slice)
         ctx.ob(rule, fi, x, k == 0, 'element 0 (the one that is kept)' if k == 0 else
